@@ -36,6 +36,18 @@ CHECKS = {
             "hidden-state differential monitors on both real cores (fresh vs long-lived core with poisoned TEMPs / call bookkeeping / perf counters), read-before-write taint monitor on the register file, split-run comparison, 8-thread stress of the Rust process-wide statics, two-process digest comparison",
             "Held on every sampled head executed after an arbitrary history of earlier cases with poisoned hidden state, on programs run continuously vs through CPUStepper snapshots (Python) and vs executor/state rebuilt from architectural registers every 1/3/7 steps (Rust), on 8 concurrent Rust runtimes with yield injection, and across two fresh processes with different hash seeds.",
             "Architectural outputs only; the Rust ASan/TSan/Miri runtimes are not available offline, so the thread stress is an oracle over results, not a race detector.", "DESIGN.md 3/C07"),
+    "C08": ("exploration",
+            "reference-model monitor after every write on the real Python Registers, Rust LlamaState and CoreRuntime named API; icontract postcondition in the path of Registers.set; snapshot/blob round-trip and cross-exchange",
+            "Held on the complete ordered-pair enumeration (14 names x 14 names x 10 x 10 boundary values) and on seeded sequences up to 64 writes with interleaved snapshot->apply round trips and Python<->Rust register-blob exchange; all 14 readable names compared after every write.",
+            "Reference register file is the property statement; TEMPs and IMR out of scope.", "DESIGN.md 3/C08"),
+    "C13": ("exploration",
+            "reference-arithmetic monitor + cross-core comparison on every tick of the real TimerScheduler.advance and TimerContext::tick_timers; icontract postcondition on advance()",
+            "Held on all period pairs 0..12 x 0..12 x enabled, sampled large periods, every-cycle and gap sequences with resets and snapshot/restore points: fire pattern, next targets strictly in the future, ISR bits, exactly-once on every-cycle sequences, Python == Rust.",
+            "Unit level (scheduler objects); the instruction-boundary re-phasing of CoreRuntime is covered at machine level by C12/C16.", "DESIGN.md 3/C13"),
+    "C17": ("other",
+            "complete comparison of live tables dumped from the running Python modules and the real Rust crate + behavioural recovery of private tables by executed probes on both cores",
+            "All 256 opcode entries x 4 fields, register width/layout copies, ~100 constants, 87 key codes, 15 PRE bytes, 58 single-operand opcodes x 2 prefixes, both vectors, both Binary Ninja views: compared completely (finite space).",
+            "Two small projections normalise operand shapes and width units.", "DESIGN.md 3/C17"),
 }
 
 NOT_APPLICABLE = []  # filled automatically for properties without a check (reason below)
